@@ -5,6 +5,7 @@ import BigtoolsModel.SweepProof
 import BigtoolsModel.ZoomQueryBytes
 import BigtoolsModel.WriterSections
 import BigtoolsModel.AtomsGen
+import BigtoolsModel.OverlapsGen
 /-! # C08 — bigBed zoom levels are faithful reductions of coverage depth
 
 Property theorems (statements copied from the lemma modules, proofs by those lemmas). -/
@@ -118,3 +119,13 @@ theorem C08_source_zoom_sweep_is_the_models (itemStart itemEnd nextStart fuel : 
   ⟨gen_bump true itemEnd l, gen_tail true itemStart itemEnd l, gen_flush true nextStart fuel l⟩
 
 end Sweep
+
+namespace RT
+
+/-- **The code's own index-pruning predicate.** `Gen.overlaps` (regenerated from `overlaps` and the functions it calls in
+    bbiread.rs on every run) is, for all arguments, the `ov` with which the search theorems are stated; zoom range queries search each level's index with it. -/
+theorem C08_source_overlaps_is_the_models_ov (q qs qe b1 b1s b2 b2e : Nat) :
+    Gen.overlaps q qs qe b1 b1s b2 b2e = ov ⟨q, qs⟩ ⟨q, qe⟩ ⟨b1, b1s⟩ ⟨b2, b2e⟩ :=
+  gen_overlaps_eq_ov q qs qe b1 b1s b2 b2e
+
+end RT
